@@ -32,6 +32,12 @@ def monitor(b, vals, obs):
         if spec.get("expect", "ok") == "ok":
             return (f"well-formed use of simultaneous()/Connect rejected by the manager: {b.reject}: {b.reject_msg[:160]}", None)
         return None
+    # (C02, reachable only with simultaneous()) two bodies related by add_conflict never run in the same cycle
+    for a, c, _p in spec.get("conflicts", []):
+        for vi, ((bits, _dv), o) in enumerate(zip(vals, obs)):
+            if o.run[b.id_of[a]] and o.run[b.id_of[c]]:
+                return (f"{a}.add_conflict({c}) but both run in the same cycle (inputs {''.join(map(str, bits))}); "
+                        f"{a} and {c} are also simultaneous: the design must be rejected", vi)
     sites: list = []
 
     def walk(name, block):
@@ -75,7 +81,7 @@ def monitor(b, vals, obs):
     return None
 
 
-KINDS = ["connect", "nested", "guarded", "half", "connect2", "tt", "guarded", "mm", "tm", "nested", "half", "free", "guarded", "nested"]
+KINDS = ["connect", "nested", "guarded", "half", "alias", "big", "conflict", "connect2", "tt", "guarded", "mm", "tm", "nested", "half", "alias", "big", "free", "guarded", "nested", "conflict"]
 
 
 def gen(pid: str, index: int, seed: int, tier: str) -> dict:
@@ -86,7 +92,7 @@ def gen(pid: str, index: int, seed: int, tier: str) -> dict:
         spec = sg.gen_c13(rng, KINDS[index % len(KINDS)])
         if not descriptor(spec)["simultaneous_transactions_share_a_callee"]:  # region of a proposed finding
             break
-    spec["expect"] = "ok"
+    spec["expect"] = "any" if spec.get("conflicts") else "ok"
     return spec
 
 
@@ -140,6 +146,26 @@ def directed() -> list[dict]:
                        ("switch", {"k": "switch", "sel": [2, 3], "cases": [{"pat": 2, "items": [wr]}, {"pat": None, "items": []}]})):
         out.append({"nin": 4, "dins": [2], "leaves": [], "connects": [{"name": "cn0", "w": 2, "rw": 0}],
                     "items": [guard, rd], "simul": [], "tag": f"c13:directed-guarded-{tag}", "expect": "ok"})
+    # simultaneous() declared between two methods that both get their definition through provide()
+    out.append({"nin": 2, "dins": [], "leaves": [], "connects": [],
+                "items": [{"k": "method", "name": "M0", "ready": None, "nx": 0, "block": []},
+                          {"k": "method", "name": "M1", "ready": None, "nx": 0, "block": []},
+                          {"k": "trans", "name": "T0", "ready": 0, "block": [_call("A0")]},
+                          {"k": "trans", "name": "T1", "ready": 1, "block": [_call("M1")]}],
+                "aliases": [{"name": "A0", "target": "M0"}, {"name": "A1", "target": "M1"}],
+                "simul": [["A0", "A1"]], "tag": "c13:directed-alias", "expect": "ok"})
+    # three Connects in series: one simultaneity component of four transactions
+    out.append({"nin": 4, "dins": [2, 2, 2], "leaves": [], "connects": [{"name": f"cn{i}", "w": 2, "rw": 0} for i in range(3)],
+                "items": [{"k": "trans", "name": "T0", "ready": 0, "block": [_call("cn0.write", arg=0)]},
+                          {"k": "trans", "name": "T1", "ready": 1, "block": [_call("cn0.read"), _call("cn1.write", arg=1)]},
+                          {"k": "trans", "name": "T2", "ready": 2, "block": [_call("cn1.read"), _call("cn2.write", arg=2)]},
+                          {"k": "trans", "name": "T3", "ready": 3, "block": [_call("cn2.read")]}],
+                "simul": [], "tag": "c13:directed-series4", "expect": "ok"})
+    # simultaneous bodies with an add_conflict between them: must be rejected (all three priorities)
+    for p in "ULR":
+        out.append({"nin": 2, "dins": [], "leaves": [], "connects": [],
+                    "items": [{"k": "trans", "name": "T0", "ready": 0, "block": []}, {"k": "trans", "name": "T1", "ready": 1, "block": []}],
+                    "simul": [["T0", "T1"]], "conflicts": [["T0", "T1", p]], "tag": "c13:directed-conflict", "expect": "any"})
     # a chain of three simultaneous transactions
     out.append({"nin": 6, "dins": [], "leaves": [{"name": f"x{i}", "ready": 3 + i} for i in range(3)], "connects": [],
                 "items": [{"k": "trans", "name": f"T{i}", "ready": i, "block": [_call(f"x{i}")]} for i in range(3)],
@@ -196,7 +222,7 @@ def run(ctx: Check):
     ctx.rule = ("cases = (circuit connecting callers through Connect / simultaneous(), input valuation incl. data); "
                 "non-trivial = circuits in which a merged transaction ran in some valuation (w writers x r readers, "
                 "chained Connects, simultaneous transactions / methods, callers with other randomly-ready callees)")
-    run_simul(ctx, "C13", gen, monitor, directed(), witness_specs, nontrivial, n_quick=44, n_thorough=2000,
+    run_simul(ctx, "C13", gen, monitor, directed(), witness_specs, nontrivial, n_quick=50, n_thorough=2000,
               descriptor=descriptor)
 
 
